@@ -67,6 +67,8 @@ def gen(rng, tier):
         bound += work + slp
     spec["settle"] = round(bound + 40.0, 3)
     spec["sim"] = runner.draw_sim_cfg(rng, est=600, stall_ok=True)
+    if any(op[0] == "await" for ops in clients for op in ops):
+        runner.prefer_place(spec["sim"], 0.4)
     spec["sim"]["horizon_s"] = 20000
     return spec
 
